@@ -382,6 +382,12 @@ def run_variant(case, var):
         return out, df
     if var["order"] == "load-first":
         _set_mods(m, case)
+    # short histories before the queries (results must not depend on them, C09): rotated modality order, flipped kinds
+    try:
+        q0 = lambda mm: (mm.data_matrix(None), mm.diagnosis_matrix(None))  # noqa: E731
+        impl.run_primes(m, case, q0, [impl.prime_modality_order, impl.prime_with_flipped_kinds])
+    except Exception:  # noqa: BLE001
+        pass
     snap_ts = [None] + list(case["query_ts"])
     _call(out, "nrows", lambda: int(len(m.patient_data)))
     _call(out, "block", lambda: _model_block(m, lnls))
